@@ -103,6 +103,22 @@ pub(crate) fn get_block_container(expected_cid: &Cid, block: &[u8]) -> Result<Ve
     Ok(block.container)
 }
 
+/// Verification hook: `ShwapMultihasher::new(store).hash(code, input)` (the type is
+/// `pub(super)`).  No logic.
+#[cfg(eigerco_lumina_verif)]
+pub(crate) async fn verif_multihash<S>(
+    header_store: Arc<S>,
+    multihash_code: u64,
+    input: &[u8],
+) -> Result<Multihash<MAX_MH_SIZE>, MultihasherError>
+where
+    S: Store + 'static,
+{
+    ShwapMultihasher::new(header_store)
+        .hash(multihash_code, input)
+        .await
+}
+
 #[cfg(test)]
 mod tests {
     use super::*;
